@@ -19,6 +19,8 @@ Definition c09w_nz (a : c09w_T) : bool := match a with Some x => negb (Qeq_bool 
 Definition c09w_q (z : Z) : c09w_T := Some (inject_Z z).
 
 Definition c09w_vdet := c09_v_det c09w_T c09w_T c09w_sub c09w_mul c09w_div c09w_abs c09w_gt c09w_nz (c09w_q 0) (c09w_q 1) (c09w_q (-1)).
+Definition c09w_vdet_old := c09_v_det_before_fix c09w_T c09w_T c09w_sub c09w_mul c09w_div c09w_abs c09w_gt c09w_nz (c09w_q 0) (c09w_q 1) (c09w_q (-1)).
+Definition c09w_sdet_old := c09_s_det_before_fix c09w_T c09w_T c09w_sub c09w_mul c09w_div c09w_abs c09w_gt c09w_nz (c09w_q 0) (c09w_q 1) (c09w_q (-1)).
 Definition c09w_sdet := c09_s_det c09w_T c09w_T c09w_sub c09w_mul c09w_div c09w_abs c09w_gt c09w_nz (c09w_q 0) (c09w_q 1) (c09w_q (-1)).
 Definition c09w_vsolve := c09_v_solve c09w_T c09w_T c09w_sub c09w_mul c09w_div c09w_abs c09w_gt c09w_nz (c09w_q 0) (c09w_q 1) (c09w_q (-1)).
 Definition c09w_ssolve := c09_s_solve c09w_T c09w_T c09w_sub c09w_mul c09w_div c09w_abs c09w_gt c09w_nz (c09w_q 0) (c09w_q 1) (c09w_q (-1)).
@@ -35,21 +37,21 @@ Definition c09w_A := c09w_zip c09w_A0 c09w_A1.
 Definition c09w_B := c09w_zip c09w_A1 [[1;1;2;7];[3;1;1;2];[2;1;5;1];[1;2;3;4]]%Z.
 Definition c09w_b : list (list c09w_T) := [[c09w_q 1; c09w_q 2]; [c09w_q 0; c09w_q 1]; [c09w_q 3; c09w_q (-1)]; [c09w_q 2; c09w_q 2]].
 
-(* the determinant as the code stood: lane 0 is the error element, the scalar determinant of lane 0 is 0 *)
-Lemma P_det_lanes_current_refuted :
+(* the determinant as the code stood before 1209091: lane 0 is the error element, the scalar determinant of lane 0 is 0 *)
+Lemma P_det_lanes_before_fix_refuted :
   exists (T U : Type) sub mul div absr gt nz zero one mone W n A l, l < W /\
-    nth l (c09_v_det T U sub mul div absr gt nz zero one mone W false true n A) zero
-    <> c09_s_det T U sub mul div absr gt nz zero one mone false true n (c09_lane_mat T zero l A).
+    nth l (c09_v_det_before_fix T U sub mul div absr gt nz zero one mone W true n A) zero
+    <> c09_s_det_before_fix T U sub mul div absr gt nz zero one mone true n (c09_lane_mat T zero l A).
 Proof.
   exists c09w_T, c09w_T, c09w_sub, c09w_mul, c09w_div, c09w_abs, c09w_gt, c09w_nz, (c09w_q 0), (c09w_q 1), (c09w_q (-1)), 2, 4, c09w_A, 0.
   split; [lia|]. vm_compute. discriminate.
 Qed.
 
 Lemma P_witness_values :
-  c09w_vdet 2 false true 4 c09w_A = [None; c09w_q 98] /\
-  c09w_vdet 2 true true 4 c09w_A = [c09w_q 0; c09w_q 98] /\
-  c09w_sdet true true 4 (c09_lane_mat c09w_T (c09w_q 0) 0 c09w_A) = c09w_q 0 /\
-  c09w_sdet false true 4 (c09_lane_mat c09w_T (c09w_q 0) 0 c09w_A) = c09w_q 0.
+  c09w_vdet_old 2 true 4 c09w_A = [None; c09w_q 98] /\
+  c09w_vdet 2 true 4 c09w_A = [c09w_q 0; c09w_q 98] /\
+  c09w_sdet true 4 (c09_lane_mat c09w_T (c09w_q 0) 0 c09w_A) = c09w_q 0 /\
+  c09w_sdet_old true 4 (c09_lane_mat c09w_T (c09w_q 0) 0 c09w_A) = c09w_q 0.
 Proof. vm_compute. split; [|split; [|split]]; reflexivity. Qed.
 
 (* non-vacuity: a solve in which the two lanes choose different pivot rows and both complete; a solve in which
@@ -69,15 +71,15 @@ Proof.
   - eexists. vm_compute. reflexivity.
 Qed.
 
-(* ---- infinity_norm: the S-lane type takes the !HasNaN variant, the scalar type the HasNaN variant (code as it stood) ---- *)
+(* ---- infinity_norm before 1037165: the S-lane type took the !HasNaN variant, the scalar type the HasNaN variant ---- *)
 Definition c09w_add := c09w_bin Qplus.
 Definition c09w_lt (a b : c09w_T) : bool := match a, b with Some x, Some y => negb (Qle_bool y x) | _, _ => false end.
 (* one lane, 2x2, first row contains the error element *)
 Definition c09w_N : list (list (list c09w_T)) := [[[None]; [c09w_q 1]]; [[c09w_q 2]; [c09w_q 3]]].
 
-Lemma P_infnorm_current_refuted :
+Lemma P_infnorm_before_fix_refuted :
   exists (T U : Type) (zero : T) (absr : T -> U) uadd umul udiv ult uzero uone W A l, l < W /\
-    nth l (c09_v_infnorm T U zero absr uadd umul udiv ult uzero uone W false A) (c09_nU T U zero absr)
+    nth l (c09_v_infnorm_before_fix T U zero absr uadd umul udiv ult uzero uone W A) (c09_nU T U zero absr)
     <> c09_s_infnorm T U absr uadd umul udiv ult uzero uone true (c09_lane_mat T zero l A).
 Proof.
   exists c09w_T, c09w_T, (c09w_q 0), c09w_abs, c09w_add, c09w_mul, c09w_div, c09w_lt, (c09w_q 0), (c09w_q 1), 1, c09w_N, 0.
@@ -85,7 +87,7 @@ Proof.
 Qed.
 
 Lemma P_infnorm_witness_values :
-  c09_v_infnorm c09w_T c09w_T (c09w_q 0) c09w_abs c09w_add c09w_mul c09w_div c09w_lt (c09w_q 0) (c09w_q 1) 1 false c09w_N = [c09w_q 5] /\
+  c09_v_infnorm_before_fix c09w_T c09w_T (c09w_q 0) c09w_abs c09w_add c09w_mul c09w_div c09w_lt (c09w_q 0) (c09w_q 1) 1 c09w_N = [c09w_q 5] /\
   c09_v_infnorm c09w_T c09w_T (c09w_q 0) c09w_abs c09w_add c09w_mul c09w_div c09w_lt (c09w_q 0) (c09w_q 1) 1 true c09w_N = [None] /\
   c09_s_infnorm c09w_T c09w_T c09w_abs c09w_add c09w_mul c09w_div c09w_lt (c09w_q 0) (c09w_q 1) true (c09_lane_mat c09w_T (c09w_q 0) 0 c09w_N) = None.
 Proof. vm_compute. split; [|split]; reflexivity. Qed.
